@@ -22,14 +22,15 @@ HL == INSTANCE HostsLine WITH Alphabet <- {}, MaxLen <- 0, line <- <<>>
 (* ------------------------------------------------------------------ sources *)
 KindLine(k) ==
     CASE k = "ok1"     -> <<"A4", "SP", "N">>
-      [] k = "ok2"     -> <<"SP", "A6z", "TAB", "N", "SP", "SP", "Nidn", "TAB", "HASH", "CMT">>
+      [] k = "ok2"     -> <<"SP", "A6z", "TAB", "N", "SP", "SP", "INV", "N", "TAB", "HASH", "CMT">>
       [] k = "empty"   -> <<>>
       [] k = "comment" -> <<"SP", "HASH", "CMT">>
       [] k = "nohosts" -> <<"A6">>
       [] k = "badaddr" -> <<"Abad", "SP", "N">>
       [] k = "badname" -> <<"A4", "SP", "N", "TAB", "SP", "Nbad", "SP", "N">>
       [] k = "okcr"    -> <<"A4", "TAB", "N", "CR">>
-AllKinds == {"ok1", "ok2", "empty", "comment", "nohosts", "badaddr", "badname", "okcr"}
+      [] k = "bom"     -> <<"INV", "A4", "SP", "N">>   \* an invisible prefix (BOM ...) glued to the address: AddrErr
+AllKinds == {"ok1", "ok2", "empty", "comment", "nohosts", "badaddr", "badname", "okcr", "bom"}
 
 MidTerms  == {"LF", "CRLF"}
 LastTerms == {"LF", "CRLF", "NONE", "CR"}
